@@ -32,15 +32,20 @@ def worker_cf(sig, *a, **kw):
     key = sig_key(sig)
     delay = 0.0
     seqf = None
+    fail = False
     if logdir:
         try:
-            delay = json.load(open(os.path.join(logdir, 'delays.json'))).get(key, 0.0)
+            tab = json.load(open(os.path.join(logdir, 'delays.json')))
+            delay = tab.get(key, 0.0)
+            fail = key in tab.get('__fail__', [])
         except Exception:
             delay = 0.0
         seqf = os.path.join(logdir, '%d.log' % os.getpid())
         with open(seqf, 'a') as fh:
             fh.write(json.dumps({'ev': 'start', 'key': key, 't': time.time()}) + '\n')
     try:
+        if fail:
+            raise ValueError('injected task failure %s' % key)
         return _ORIG['cf'](sig, *a, **kw)
     finally:
         if delay:
@@ -230,3 +235,32 @@ def reference_3d(sigs, fs, f_range, kwargs, axis):
                 kw = copy.deepcopy(kwargs if isinstance(kwargs, dict) else kwargs[j])
                 ref.append([table_fp(d) for d in compute_features_2d(sigs[:, j].copy(), fs, f_range, compute_features_kwargs=kw, axis=None)])
     return ref
+
+
+def run_fault(sigs, fs, f_range, kwargs, n_jobs, delays, failing, logdir):
+    """compute_features_2d where the tasks in `failing` (1-based) raise in their worker. Returns which task's exception reached the parent."""
+    from bycycle.group import compute_features_2d
+    keys = {sig_key(s): i + 1 for i, s in enumerate(sigs)}
+    tab = {sig_key(s): float(d) for s, d in zip(sigs, delays)}
+    tab['__fail__'] = [sig_key(sigs[k - 1]) for k in failing]
+    json.dump(tab, open(os.path.join(logdir, 'delays.json'), 'w'))
+    os.environ['BYCVERIF_POOL_LOG'] = logdir
+    raised_task, raised, n_out = 0, '', -1
+    t0 = time.time()
+    try:
+        with warnings.catch_warnings():
+            warnings.simplefilter('ignore')
+            with install():
+                out = compute_features_2d(sigs, fs, f_range, compute_features_kwargs=kwargs, axis=0, n_jobs=n_jobs)
+                n_out = len(out)
+    except ValueError as ex:
+        raised = 'ValueError'
+        for k, i in keys.items():
+            if k in str(ex):
+                raised_task = i
+    except Exception as ex:
+        raised = type(ex).__name__
+    finally:
+        os.environ.pop('BYCVERIF_POOL_LOG', None)
+    read_logs(logdir, keys)
+    return {'mode': 'fault', 'T': len(sigs), 'failing': sorted(failing), 'raised': raised, 'raised_task': raised_task, 'returned': n_out, 'wall_s': round(time.time() - t0, 2)}
